@@ -19,16 +19,16 @@ CHECKS = {
    "For fixed logical content an independent writer emits every file within <= d deviations from a baseline physical plan (all legal level run plans, page splits incl. a menu of splits for 20-record contents, codecs, snappy stream shapes, optional thrift content, legal BIT_PACKED labels) and the generated reader must return the records; d=1 exhaustive, d=2 over a reduced set, plus long run families.",
    "Foreign writer and reference parser cross-checked on every file; snappy/gzip libraries trusted; zero padding bits.", "4/C04"),
  "C05": ("exploration", "exhaustive program enumeration over a bounded struct grammar (generate, compile, run against reference oracles)",
-   "Every struct definition of the grammar (quick: 2073 shapes of depth<=2 with <=2 leaves plus leaf-type x context; thorough: depth<=3 / 3 leaves) goes through the freshly built parquetgen twice, the Go compiler, and the round-trip, validity and striping oracles on every value up to a node bound; each failing (shape, class) must be in the committed known-findings list.",
-   "Shapes beyond the grammar bound are not covered; the generator's many genuine defects are recorded per shape in known_findings.jsonl.", "4/C05"),
+   "Every struct definition of the grammar (quick: 2073 shapes of depth<=2 with <=2 leaves plus leaf-type x context plus every shape with two like groups declared with one shared struct type; thorough: depth<=3 / 3 leaves) goes through the freshly built parquetgen twice, the Go compiler, and the round-trip, validity and striping oracles on every value up to a node bound; each failing (shape, class) must be in the committed known-findings list.",
+   "Shapes beyond the grammar bound are not covered; the generator's remaining genuine defects (two-level chains through a repeated group) are recorded per shape in known_findings.jsonl.", "4/C05"),
  "C06": ("model_checking", "explicit-state exploration of the writer API (all Add/Write histories to a depth bound) against a list-of-batches model",
-   "Every history over {Add, Write} up to length L, with Close applied at every state, for every page size 1..k and codec, is executed on the real writer and compared with a list-of-batches reference model (file validity, row groups, per-row-group contents, reader output).",
+   "Every history over {Add, Write} up to length L, with Close applied at every state, for every page size 1..k and codec, over multi-column and single-column record types, is executed on the real writer and compared with a list-of-batches reference model (file validity, row groups, per-row-group contents, reader output).",
    "Histories beyond L are not explored; every model trace is executed on the implementation.", "4/C06"),
  "C07": ("model_checking", "breadth-first search of the real RLE encoder's control state + exhaustive sequence/plan enumeration with a strict specification decoder",
    "BFS over the encoder's control state (reaching the 63-group closure 504 values deep), every level sequence up to a per-width length bound, run-structured families at every alignment, and the library decoder on every legal run plan of every short sequence.",
    "State abstraction argued in DESIGN.md; bit-level packing is decided completely by C17.", "4/C07"),
  "C08": ("fault_enumeration", "deviation-bounded enumeration of the source's Read answers",
-   "Every fixed chunk size, every single short read at every call index (pairs in thorough), data-with-EOF, with and without io.ByteReader: the reader must return the same records.",
+   "Every fixed chunk size, every single short read at every call index (pairs in thorough), data-with-EOF, with and without io.ByteReader, over workloads incl. chunks whose page headers shrink and grow: the reader must return the same records.",
    "Short reads deliver >= 1 byte.", "4/C08"),
  "C09": ("fault_enumeration", "exhaustive enumeration of the failing sink call index",
    "For every workload and codec, every index k of the failing sink Write call, four fault kinds (pairs in thorough): the API call during which it failed must return an error.",
@@ -37,19 +37,19 @@ CHECKS = {
    "For every workload and codec, every index k of the failing Read/Seek/ReadByte call, three error kinds, transient/sticky/with-data (pairs in thorough): error reported or all rows correct, never a panic.",
    "Rows delivered before a reported error are not judged.", "4/C10"),
  "C11": ("fault_enumeration", "exhaustive enumeration of truncation points",
-   "Every strict prefix of every workload file (incl. zero-row-group and one-record files) is opened and iterated, and for a grid of (row groups x rows in the last row group) every cut inside the last 12 bytes: an error must be reported, no panic.",
+   "Every strict prefix of every workload file (incl. zero-row-group and one-record files, and files whose data embeds a footer image followed by its length so that some prefixes end like a complete file without the magic) is opened and iterated, and for a grid of (row groups x rows in the last row group) every cut inside the last 12 bytes: an error must be reported, no panic.",
    "Prefixes that are themselves complete valid files are excluded by construction and re-validated.", "4/C11"),
  "C12": ("exploration", "exhaustive ordered page contents over per-type alphabets vs reference page decode",
-   "Every ordered page content up to length m over each type's alphabet with nulls interleaved, for all 24 column kinds and nested contexts: null_count exact, min/max (when present) bound every value in the type's order.",
+   "Every ordered page content up to length m over each type's alphabet with nulls interleaved, for all 24 column kinds and nested contexts (every sequence of record states for 8 types x required/optional below optional and repeated groups): null_count exact, min/max (when present) bound every value in the type's order.",
    "Absent min/max accepted.", "4/C12"),
  "C13": ("model_checking", "stateless schedule exploration (CHESS-style DFS over choice prefixes, deviation-bounded) of the real code under a cooperative scheduler + separate free-running -race pass",
    "2-3 independent writer/reader instances run as goroutines under a cooperative scheduler whose points are the pool Get/Put, sink and source operations (pool Get is also a data choice); every execution with <= b preemptions/pool deviations is enumerated for two pool modes and six prior pool contents, and each instance's output must equal its solo run on an ideal pool; use-after-Put and double-Put monitors. The data-race clause is decided by a free-running -race pass of the same bodies.",
    "Buffers are instance-private between Get and Put (violations of that are what the monitors and poison-on-Put detect); the race clause is dynamic detection on sampled schedules.", "4/C13"),
  "C14": ("exploration", "exhaustive program enumeration of decorations of base struct definitions, byte-for-byte differential against the base",
-   "Every insertion of an excluded field (every position, every struct, a menu of Go types and names) and every replacement of a run of fields by an embedded struct is generated, compiled and run next to its base definition; files must be byte-identical for every enumerated value and excluded fields must scan back as zero.",
-   "One decoration per program; base definitions are asserted to pass the C05 oracles first.", "4/C14"),
+   "Every insertion of an excluded field (every position, every struct, a menu of Go types and names), every replacement of a run of fields by an embedded struct, and every such embedding paired with an excluded field next to (or inside) the embedded struct is generated, compiled and run next to its base definition; files must be byte-identical for every enumerated value and excluded fields must scan back as zero.",
+   "One decoration per program except embedding x excluded-field pairs; base definitions are asserted to pass the C05 oracles first.", "4/C14"),
  "C15": ("exploration", "two-stage exhaustive program enumeration (write with the source struct, regenerate from the file, read back)",
-   "Every source struct of the non-repeated grammar is generated and compiled, writes files for every record structure up to a node bound with extreme values, and parquetgen -parquet regenerates struct + reader from the file; the regenerated schema must equal what the reference parser finds in the file and the regenerated reader must return exactly the written values.",
+   "Every source struct of the non-repeated grammar (column names unique, and leaf names reused across parents) is generated and compiled, writes files for every record structure up to a node bound with extreme values, and parquetgen -parquet regenerates struct + reader from the file; the regenerated schema must equal what the reference parser finds in the file and the regenerated reader must return exactly the written values.",
    "Source structs whose own writer fails produce no file and are counted, not judged.", "4/C15"),
  "C16": ("exploration", "bounded exhaustive file enumeration vs independent parser, field-by-field",
    "ReadMetaData, PageHeaders and PageHeadersAtOffset (every chunk start and every page start) are compared field by field with the reference parser's footer tree and sequential walk over the exhaustive file families.",
